@@ -31,8 +31,9 @@ VARIABLES elevIn, bl, mask, elev, closed, open, pit, done
 pvars == <<elevIn, bl, mask, elev, closed, open, pit, done>>
 
 PInit == /\ elevIn \in [NodeSet -> {lv * K : lv \in Levels}]
-         /\ bl \in BLSets /\ mask \in Masks /\ bl \cap mask = {}
-         /\ elev = elevIn /\ closed = bl /\ open = bl /\ pit = <<>> /\ done = FALSE
+         /\ bl \in BLSets /\ mask \in Masks /\ bl \ mask # {}
+         \* base levels under the mask are not part of the graph: they are not queued
+         /\ elev = elevIn /\ closed = bl \ mask /\ open = bl \ mask /\ pit = <<>> /\ done = FALSE
 
 MinElevOpen == {i \in open : \A m \in open : elev[i] <= elev[m]}
 MinOpen == IF TotalOrder THEN {SetMin(MinElevOpen)} ELSE MinElevOpen
